@@ -29,6 +29,14 @@ def main():
             r = subprocess.run(['git', '-C', d, 'apply', '--3way', os.path.abspath(patch)], capture_output=True, text=True)
             if r.returncode != 0:
                 r = subprocess.run(['git', '-C', d, 'apply', os.path.abspath(patch)], capture_output=True, text=True)
+        if r.returncode != 0 and not patch.startswith('revert:'):
+            # later fix: commits moved the context; GNU patch with fuzz still places most hunks
+            subprocess.run(['git', '-C', d, 'reset', '-q', '--hard'], capture_output=True)
+            r2 = subprocess.run(['patch', '-p1', '-F3', '--no-backup-if-mismatch', '-d', d, '-i', os.path.abspath(patch)],
+                                capture_output=True, text=True)
+            if r2.returncode == 0:
+                print('patch applied with fuzz (context changed by later commits)')
+                r = r2
         if r.returncode != 0:
             print('PATCH DOES NOT APPLY:', r.stderr[-500:])
             return 3
